@@ -126,15 +126,27 @@ def judge_c12(prog, out):
 
 def cases(tier, seed, i, n):
     def mine():
+        # random / PCT schedules and the bounded-preemption DFS blocks are interleaved, so that a shard whose time
+        # budget runs out (a loaded machine) has still done some of each: none of the deciding counters depends
+        # on getting to the end of the list
         bound = 1 if tier == 'quick' else 2
+        dfs = []
         for name in PROGRAMS:
             b = bound + (1 if (tier == 'thorough' and name in SMALL) else 0)
-            yield dict(pid='C12', prog=name, mode='dfs', bound=b, shard=i, nshards=n, max_runs=400 if tier == 'quick' else 4000)
+            dfs.append(dict(pid='C12', prog=name, mode='dfs', bound=b, shard=i, nshards=n, max_runs=400 if tier == 'quick' else 4000))
         rnd = random.Random(seed * 27449 + 12 + i)
         names = sorted(PROGRAMS)
+        rand = []
         for r in range(30 if tier == 'quick' else 400):
-            yield dict(pid='C12', prog=names[(r + i) % len(names)], mode='random', rseed=rnd.randrange(1 << 30), count=15,
-                       prob=rnd.choice((0.02, 0.05, 0.15, 0.4)), pct=[400, rnd.choice((2, 3, 4))] if r % 2 else None)
+            rand.append(dict(pid='C12', prog=names[(r + i) % len(names)], mode='random', rseed=rnd.randrange(1 << 30), count=15,
+                             prob=rnd.choice((0.02, 0.05, 0.15, 0.4)), pct=[400, rnd.choice((2, 3, 4))] if r % 2 else None))
+        per = -(-len(rand) // max(1, len(dfs)))
+        for k, d in enumerate(dfs):
+            for c in rand[k * per:(k + 1) * per]:
+                yield c
+            yield d
+        for c in rand[len(dfs) * per:]:
+            yield c
     return mine()
 
 
